@@ -27,6 +27,9 @@ def make_module(memtype, rowbits=11, colbits=4, bankbits=1, clk=100e6):
     rate = {"SDR": "1:1", "DDR": "1:2", "LPDDR": "1:2", "DDR2": "1:2", "DDR3": "1:4", "DDR4": "1:4"}[memtype]
     tech = dict(tREFI=64e6 / 8192, tWTR=(2, None), tCCD=(1, None), tRRD=(None, 10), tZQCS=None)
     speed = dict(tRP=15, tRCD=15, tWR=15, tRFC=(None, 60), tFAW=(None, 40), tRAS=35)
+    if memtype == "DDR4":       # DDR4 entries are keyed by the fine refresh mode
+        tech["tREFI"] = {"1x": 64e6 / 8192, "2x": 64e6 / 8192 / 2, "4x": 64e6 / 8192 / 4}
+        speed["tRFC"] = {"1x": (None, 60), "2x": (None, 40), "4x": (None, 30)}
     cls = type("VerifModelModule", (lm.SDRAMModule,), dict(memtype=memtype, nbanks=1 << bankbits, nrows=1 << rowbits, ncols=1 << colbits,
                technology_timings=lm._TechnologyTimings(**tech), speedgrade_timings={"default": lm._SpeedgradeTimings(**speed)}))
     return cls(clk, rate)
